@@ -21,8 +21,10 @@ for n in sorted(os.listdir(os.path.join(V, 'seeded'))):
                                                    ('**yes** (%s)' % rule) if own else ('no' + (' — but reported by %s' % rule if others else '')),
                                                    m.get('disposition', '')))
 table = ('| seeded change | property | change | needs | caught by its own check | remark |\n|---|---|---|---|---|---|\n' + '\n'.join(rows) + '\n')
+sup = sum(1 for r in rows if 'SUPERSEDED' in r)
 caught = sum(1 for r in rows if '**yes**' in r)
-table += '\n%d of %d seeded changes are reported by the check of the property they were written against.\n' % (caught, len(rows))
+anyc = sum(1 for r in rows if '**yes**' in r or 'but reported by' in r)
+table += '\n%d of %d live seeded changes are reported by the check of the property they were written against (%d by some check); %d superseded by a later fix.\n' % (caught, len(rows) - sup, anyc, sup)
 p = os.path.join(V, 'DESIGN.md')
 s = open(p).read()
 if '@SEEDS@' in s:
